@@ -430,81 +430,123 @@ func c23Run(line string) string {
 // ---------------------------------------------------------------------------------------------
 // generator
 
-func c23Gen(r *vhRng) string {
-	return c23GenRandom(r)
+type c23Shape struct {
+	parents []int
+	num     []int // by id
 }
 
-func c23GenRandom(r *vhRng) string {
-	n := 2 + r.Intn(7) // 2..8 blocks
-	parents := make([]int, n)
-	num := make([]int, n+1)
-	// mostly chains with up to 3 forks
+// c23Tree draws a tree with n blocks and at most maxForks branch points away from the "append to the last
+// block" default.
+func c23Tree(r *vhRng, n, maxForks int, forkChance [2]int) *c23Shape {
+	sh := &c23Shape{parents: make([]int, n), num: make([]int, n+1)}
 	forks := 0
 	for i := 1; i <= n; i++ {
 		p := i - 1
-		if i > 1 && forks < 2 && r.Chance(1, 3) {
+		if i > 1 && forks < maxForks && r.Chance(forkChance[0], forkChance[1]) {
 			p = r.Intn(i)
 			if p != i-1 {
 				forks++
 			}
 		}
-		parents[i-1] = p
-		num[i] = num[p] + 1
+		sh.parents[i-1] = p
+		sh.num[i] = sh.num[p] + 1
 	}
-	var anns []string
-	tag := 0
-	for i := 1; i <= n; i++ {
-		if r.Chance(1, 2) {
-			tag++
-			anns = append(anns, fmt.Sprintf("%ds%d.%d", i, r.Intn(4), tag))
-			if r.Chance(1, 40) { // malformed: two scheduled changes in one header
-				tag++
-				anns = append(anns, fmt.Sprintf("%ds%d.%d", i, r.Intn(4), tag))
-			}
-		}
-		if r.Chance(1, 4) {
-			tag++
-			anns = append(anns, fmt.Sprintf("%df%d.%d.%d", i, r.Intn(4), tag, r.Intn(num[i]+1)))
-			if r.Chance(1, 40) {
-				tag++
-				anns = append(anns, fmt.Sprintf("%df%d.%d.%d", i, r.Intn(4), tag, r.Intn(num[i]+1)))
-			}
-		}
+	return sh
+}
+
+func (sh *c23Shape) anc(a, d int) bool {
+	for d != a && d != 0 {
+		d = sh.parents[d-1]
 	}
-	// op sequence: import in a parent-first order interleaved with finalisations
-	imported := []int{0}
+	return d == a
+}
+
+// c23Ops draws an op sequence: imports mostly parent-first and each block once, finalisations mostly of
+// imported descendants of the last finalised block.
+func c23Ops(r *vhRng, sh *c23Shape, finNum, finDen int, noise bool) []string {
+	n := len(sh.parents)
 	isImp := map[int]bool{0: true}
+	root := 0
 	var ops []string
-	nOps := n + r.Intn(n+3)
-	for k := 0; k < nOps; k++ {
-		switch {
-		case r.Chance(2, 3):
-			// import a block whose parent is imported (mostly), not yet imported (mostly)
+	remaining := n
+	budget := 3*n + 4
+	for remaining > 0 && budget > 0 {
+		budget--
+		if r.Chance(finNum, finDen) {
+			// finalise
 			var cands []int
 			for i := 1; i <= n; i++ {
-				if !isImp[i] && isImp[parents[i-1]] {
+				if isImp[i] && i != root && sh.anc(root, i) {
 					cands = append(cands, i)
 				}
 			}
 			b := 1 + r.Intn(n)
-			if len(cands) > 0 && !r.Chance(1, 12) {
+			if len(cands) > 0 && !(noise && r.Chance(1, 10)) {
 				b = cands[r.Intn(len(cands))]
-			}
-			ops = append(ops, fmt.Sprintf("imp %d", b))
-			if isImp[parents[b-1]] && !isImp[b] {
-				isImp[b] = true
-				imported = append(imported, b)
-			}
-		default:
-			b := imported[r.Intn(len(imported))]
-			if b == 0 || r.Chance(1, 12) {
-				b = 1 + r.Intn(n)
+				if r.Chance(1, 2) { // prefer a small step
+					for _, c := range cands {
+						if sh.num[c] < sh.num[b] {
+							b = c
+						}
+					}
+					// among the lowest candidates choose at random
+					var low []int
+					for _, c := range cands {
+						if sh.num[c] == sh.num[b] {
+							low = append(low, c)
+						}
+					}
+					b = low[r.Intn(len(low))]
+				}
+			} else if len(cands) == 0 && !noise {
+				continue
 			}
 			ops = append(ops, fmt.Sprintf("fin %d", b))
+			if isImp[b] && sh.anc(root, b) {
+				root = b
+			}
+			continue
+		}
+		var cands []int
+		for i := 1; i <= n; i++ {
+			if !isImp[i] && isImp[sh.parents[i-1]] {
+				cands = append(cands, i)
+			}
+		}
+		if len(cands) == 0 {
+			break
+		}
+		b := cands[r.Intn(len(cands))]
+		if noise && r.Chance(1, 10) {
+			b = 1 + r.Intn(n) // re-import, orphan, ...
+		}
+		ops = append(ops, fmt.Sprintf("imp %d", b))
+		if !isImp[b] && isImp[sh.parents[b-1]] {
+			isImp[b] = true
+			remaining--
 		}
 	}
-	ps := make([]string, n)
-	for i, p := range parents {
+	// a few trailing finalisations
+	for k := r.Intn(3); k > 0; k-- {
+		var cands []int
+		for i := 1; i <= n; i++ {
+			if isImp[i] && sh.anc(root, i) {
+				cands = append(cands, i)
+			}
+		}
+		if len(cands) == 0 {
+			break
+		}
+		b := cands[r.Intn(len(cands))]
+		ops = append(ops, fmt.Sprintf("fin %d", b))
+		root = b
+	}
+	return ops
+}
+
+func c23Line(sh *c23Shape, anns, ops []string) string {
+	ps := make([]string, len(sh.parents))
+	for i, p := range sh.parents {
 		ps[i] = strconv.Itoa(p)
 	}
 	a := "-"
@@ -512,6 +554,80 @@ func c23GenRandom(r *vhRng) string {
 		a = strings.Join(anns, ",")
 	}
 	return fmt.Sprintf("t=%s a=%s|%s", strings.Join(ps, ","), a, strings.Join(ops, ";"))
+}
+
+func c23Gen(r *vhRng) string {
+	switch k := r.Intn(20); {
+	case k < 9:
+		return c23GenMixed(r, false)
+	case k < 11:
+		return c23GenMixed(r, true)
+	case k < 15:
+		return c23GenScheduled(r)
+	default:
+		return c23GenForced(r)
+	}
+}
+
+// mixed: scheduled and forced announcements anywhere
+func c23GenMixed(r *vhRng, noise bool) string {
+	n := 2 + r.Intn(7) // 2..8 blocks
+	sh := c23Tree(r, n, 2, [2]int{1, 3})
+	var anns []string
+	tag := 0
+	for i := 1; i <= n; i++ {
+		if r.Chance(1, 2) {
+			tag++
+			anns = append(anns, fmt.Sprintf("%ds%d.%d", i, r.Intn(4), tag))
+			if noise && r.Chance(1, 12) { // malformed: two scheduled changes in one header
+				tag++
+				anns = append(anns, fmt.Sprintf("%ds%d.%d", i, r.Intn(4), tag))
+			}
+		}
+		if r.Chance(1, 5) {
+			tag++
+			anns = append(anns, fmt.Sprintf("%df%d.%d.%d", i, r.Intn(4), tag, r.Intn(sh.num[i]+1)))
+			if noise && r.Chance(1, 12) {
+				tag++
+				anns = append(anns, fmt.Sprintf("%df%d.%d.%d", i, r.Intn(4), tag, r.Intn(sh.num[i]+1)))
+			}
+		}
+	}
+	return c23Line(sh, anns, c23Ops(r, sh, 1, 3, noise))
+}
+
+// scheduled changes only, many of them, deep chains with forks: nesting, unfinalised ancestors, pruning
+func c23GenScheduled(r *vhRng) string {
+	n := 3 + r.Intn(6)
+	sh := c23Tree(r, n, 3, [2]int{1, 4})
+	var anns []string
+	for i := 1; i <= n; i++ {
+		if r.Chance(2, 3) {
+			anns = append(anns, fmt.Sprintf("%ds%d.%d", i, r.Pick(0, 0, 1, 1, 2, 3), i))
+		}
+	}
+	return c23Line(sh, anns, c23Ops(r, sh, 2, 5, false))
+}
+
+// several forks that each announce a forced change (the ordered slice holds several entries), some scheduled
+// changes below them (dependencies), few finalisations
+func c23GenForced(r *vhRng) string {
+	n := 4 + r.Intn(5)
+	sh := c23Tree(r, n, 4, [2]int{1, 2})
+	var anns []string
+	for i := 1; i <= n; i++ {
+		if r.Chance(1, 4) {
+			anns = append(anns, fmt.Sprintf("%ds%d.%d", i, r.Pick(0, 0, 1, 2), i))
+		}
+		if r.Chance(1, 2) {
+			best := r.Intn(sh.num[i] + 1)
+			if r.Chance(1, 2) {
+				best = 0
+			}
+			anns = append(anns, fmt.Sprintf("%df%d.%d.%d", i, r.Pick(0, 1, 1, 2, 2, 3), 10+i, best))
+		}
+	}
+	return c23Line(sh, anns, c23Ops(r, sh, 1, 6, false))
 }
 
 func TestVerifC23(t *testing.T) { vhMain(t, c23Gen, c23Run) }
